@@ -121,8 +121,20 @@ func (p *parser) parseStatement() ast.Statement {
 			labelComments = p.comments.FetchAll()
 		}
 		p.scope.labels = append(p.scope.labels, label) // Push the label
+		pending := len(p.scope.continues)
 		statement := p.parseStatement()
 		p.scope.labels = p.scope.labels[:len(p.scope.labels)-1] // Pop the label
+		// A continue may only name the label of an iteration statement.
+		continues := p.scope.continues[:pending]
+		for _, branch := range p.scope.continues[pending:] {
+			switch {
+			case branch.Label.Name != label:
+				continues = append(continues, branch)
+			case !isIterationStatement(statement):
+				p.error(branch.Idx, "Illegal continue statement")
+			}
+		}
+		p.scope.continues = continues
 		exp := &ast.LabelledStatement{
 			Label:     identifier,
 			Colon:     colon,
@@ -876,11 +888,13 @@ func (p *parser) parseContinueStatement() ast.Statement {
 			goto illegal
 		}
 		p.semicolon()
-		return &ast.BranchStatement{
+		branch := &ast.BranchStatement{
 			Idx:   idx,
 			Token: token.CONTINUE,
 			Label: identifier,
 		}
+		p.scope.continues = append(p.scope.continues, branch)
+		return branch
 	}
 
 	p.expect(token.IDENTIFIER)
@@ -889,6 +903,20 @@ illegal:
 	p.error(idx, "Illegal continue statement")
 	p.nextStatement()
 	return &ast.BadStatement{From: idx, To: p.idx}
+}
+
+// isIterationStatement reports whether a statement is a loop, possibly under further labels.
+func isIterationStatement(statement ast.Statement) bool {
+	for {
+		switch stmt := statement.(type) {
+		case *ast.LabelledStatement:
+			statement = stmt.Statement
+		case *ast.DoWhileStatement, *ast.ForInStatement, *ast.ForStatement, *ast.WhileStatement:
+			return true
+		default:
+			return false
+		}
+	}
 }
 
 // Find the next statement after an error (recover).
